@@ -31,7 +31,14 @@ def cells(tier, seed):
     n = 220 if tier == 'quick' else 60000
     while len(out) < n:
         wc, wr = rnd.choice(waves), rnd.choice(waves)
-        if refs.flen(wc) == refs.flen(wr):
+        if len(out) % 7 == 3:
+            # mostly different lengths (a swap then shows in the shapes); one cell in seven has two different
+            # wavelets of EQUAL length (same shapes either way, and the four filters fit one stacked array)
+            same = [w for w in waves if refs.flen(w) == refs.flen(wc) and pywt.Wavelet(w).dec_lo != pywt.Wavelet(wc).dec_lo]
+            if not same:
+                continue
+            wr = rnd.choice(same)
+        elif refs.flen(wc) == refs.flen(wr):
             continue
         out.append({'wc': wc, 'wr': wr, 'mode': rnd.choice(refs.MODES), 'J': rnd.choice([1, 1, 2, 3]),
                     'shape': list(rnd.choice(SHAPES)), 'N': rnd.choice([1, 2, 4]), 'C': rnd.choice([1, 2, 3, 4])})
